@@ -151,6 +151,32 @@ def run(rep, drv):
 		bad = isinstance(r, dict) or len(r) != len(mo) or any(abs(float(a) - float(b)) > 1e-9 for a, b in zip(r, mo)) or min(r) < 0 or abs(sum(r) - 1) > 1e-9
 		if bad:
 			diff('convolve_many', 'convolve_many differs from direct convolution', case, r if isinstance(r, dict) else [float(x) for x in r], [float(x) for x in mo], True)
+	# rare outcomes: pmfs with a tiny (but genuine) probability; the convolution must keep the small positive entries
+	# (only NEGATIVE rounding noise may be cleared), so the comparison is much tighter than the clean-up tolerance 1e-10
+	for k in range(max(4, N // 16)):
+		arrs = []
+		for j in range(2 if k == 0 else rng.randint(2, 4)):
+			eps = 1e-6 if k == 0 else rng.choice([1e-4, 1e-5, 1e-6, 3e-6])
+			m = 2 if k == 0 else rng.randint(2, 4)
+			w = [F(eps)] + [F(rng.randint(1, 4)) for _ in range(m - 2)]
+			rest = [F(1) - sum(w)] if m - 2 == 0 else []
+			if not rest:
+				tot = sum(w[1:]); w = [w[0]] + [x * (1 - w[0]) / tot for x in w[1:]]
+			a = rest + w if rest else w
+			if k == 0:
+				a = [F(1) - F(eps), F(eps)]
+			elif rng.random() < .5:
+				a = list(reversed(a))
+			arrs.append(a)
+		case = {'arrays': [frs(a) for a in arrs], 'rare': True}
+		rep.case('convolve_many', case)
+		rep.count('convolve_many:rare-outcomes')
+		r = call(H.convolve_many, [[float(x) for x in a] for a in arrs])
+		mo = [unfr(x) for x in drv.call('convmany', arrays=case['arrays'])]
+		rep.tol_cmp += 1
+		bad = isinstance(r, dict) or len(r) != len(mo) or any(abs(float(a) - float(b)) > 1e-13 for a, b in zip(r, mo)) or min(r) < 0
+		if bad:
+			diff('convolve_many', 'convolve_many loses or distorts small probabilities (rare outcomes)', case, r if isinstance(r, dict) else [float(x) for x in r], [float(x) for x in mo], True)
 	for k in range(N // 8):
 		n = rng.randint(0, 4); lo = rng.randint(-2, 3); hi = lo + rng.randint(0, 4)
 		case = {'n': n, 'lo': lo, 'hi': hi}
